@@ -38,7 +38,10 @@ def run(ctx):
         return finish(ctx)
     common.translator_crosscheck(ctx, hb)
     t = ctx.translated
-    MAX = t["len_max"] if t else 4224281216
+    # the PUBLISHED maximum of the property text -- never the (possibly edited) table of the source
+    MAX = 4224281216
+    if t and t["len_max"] != MAX:
+        ctx.notes.append("the source's last table entry is %d, the published maximum is %d" % (t["len_max"], MAX))
     ls = lengths(ctx)
     cases = []
     for x in ls:
@@ -54,7 +57,23 @@ def run(ctx):
     def nontrivial(c, i):
         return not (c.startswith("len_new 0") or i in ("none", "valid 0 range none"))
 
-    ctx.correspond("LEN-POINT", cases, hb, db, nontrivial=nontrivial, coq_sample=24)
+    def point_pred(c, i, m):
+        p = c.split(" ")
+        if p[0] == "len_new":
+            x = int(p[1])
+            if (i.startswith("some")) != (x <= MAX):
+                return "encoding must succeed exactly for lengths <= %d; new(%d) = %s" % (MAX, x, i)
+        if p[0] == "limits" and i.split(" ")[-1] != str(MAX):
+            return "GeneratorType::MAX is %s, the published maximum is %d" % (i.split(" ")[-1], MAX)
+        if p[0] == "validity":
+            x = int(p[2])
+            if (i.split(" ")[0] == "TooLarge") != (x > MAX):
+                return "DataLengthValidity must be TooLarge exactly above %d; got %s for %d" % (MAX, i.split(" ")[0], x)
+        return None
+
+    for x in (MAX - 1, MAX, MAX + 1, MAX + 2, MAX + 45, MAX + 46, MAX + 1000):
+        cases.append("len_new %d" % x)
+    ctx.correspond("LEN-POINT", cases, hb, db, nontrivial=nontrivial, coq_sample=24, predicate=point_pred)
 
     # exhaustive: all 2^32 lengths on the implementation, RLE compared with the model
     rc, out = core.run([hb, "lenrle"], timeout=1200)
